@@ -1,0 +1,397 @@
+// Copyright 2020-2025 Buf Technologies, Inc.
+//
+// Licensed under the Apache License, Version 2.0 (the "License");
+// you may not use this file except in compliance with the License.
+// You may obtain a copy of the License at
+//
+//      http://www.apache.org/licenses/LICENSE-2.0
+//
+// Unless required by applicable law or agreed to in writing, software
+// distributed under the License is distributed on an "AS IS" BASIS,
+// WITHOUT WARRANTIES OR CONDITIONS OF ANY KIND, either express or implied.
+// See the License for the specific language governing permissions and
+// limitations under the License.
+
+//go:build verif
+
+package internal
+
+// Contracts for the gocv verifier (contract author ca-B2). Comment-only.
+// Spec functions (b2_*), ghost variables and trusted declarations: /verif/specs/C11_formats.spec.
+//
+// C11 "a built image written in any supported encoding and compression (binpb, json, txtpb, yaml; gzip, zstd) and
+// read back equals the original": the (format, compression) pair is decided ONCE, by the ref parser, from the path
+// and the explicit #format= / #compression= options; reader and writer both act on the parsed ref. This file states
+//   * the option half of the decision table (explicit options override what the path said, an unknown format or
+//     compression is an error, never a silent default; a format's default compression applies only when none is set),
+//   * that the parsed ref carries exactly the decided pair, and
+//   * that the writer compresses and the reader decompresses with the codec named by the ref (same switch on both sides).
+//
+// ---- error constructors (verified: they never return nil) ----
+//@ func NewCompressionUnknownError(compression) (r)
+//@   property C11
+//@   ensures r != nil
+//@ func NewFormatUnknownError(formatString) (r)
+//@   property C11
+//@   ensures r != nil
+//@ func NewFormatNotAllowedError(format, allowedFormats) (r)
+//@   property C11
+//@   modifies heap
+//@   ensures r != nil
+//@ func NewFormatCannotBeDeterminedError(value) (r)
+//@   property C11
+//@   ensures r != nil
+//@ func NewFormatOverrideNotAllowedForDevNullError(devNull) (r)
+//@   property C11
+//@   ensures r != nil
+//@ func NewCannotSpecifyCompressionForZipError() (r)
+//@   property C11
+//@   ensures r != nil
+//@ func NewOptionsInvalidForFormatError(format, inputName, issue) (r)
+//@   property C11
+//@   ensures r != nil
+//@ func NewOptionsInvalidKeysError(keys) (r)
+//@   property C11
+//@   ensures r != nil
+//@ func NewNoPathError() (r)
+//@   property C11
+//@   ensures r != nil
+//@ func NewInvalidPathError(format, path) (r)
+//@   property C11
+//@   ensures r != nil
+//@ func NewDepthParseError(s) (r)
+//@   property C11
+//@   ensures r != nil
+//@ func NewDepthZeroError() (r)
+//@   property C11
+//@   ensures r != nil
+//@ func NewOptionsInvalidValueForKeyError(key, value) (r)
+//@   property C11
+//@   ensures r != nil
+//@ func NewOptionsCouldNotParseStripComponentsError(s) (r)
+//@   property C11
+//@   ensures r != nil
+//@ func NewOptionsCouldNotParseRecurseSubmodulesError(s) (r)
+//@   property C11
+//@   ensures r != nil
+//@ func NewCannotSpecifyGitBranchAndCommitOrTagError() (r)
+//@   property C11
+//@   ensures r != nil
+//@ func NewCannotSpecifyCommitOrTagWithRefError() (r)
+//@   property C11
+//@   ensures r != nil
+//@ func newValueEmptyError() (r)
+//@   property C11
+//@   ensures r != nil
+//@ func newValueMultipleHashtagsError(value) (r)
+//@   property C11
+//@   ensures r != nil
+//@ func newValueStartsWithHashtagError(value) (r)
+//@   property C11
+//@   ensures r != nil
+//@ func newValueEndsWithHashtagError(value) (r)
+//@   property C11
+//@   ensures r != nil
+//@ func newOptionsInvalidError(s) (r)
+//@   property C11
+//@   ensures r != nil
+//@ func newOptionsDuplicateKeyError(key) (r)
+//@   property C11
+//@   ensures r != nil
+//
+// ---- #compression=: exactly the three documented values ----
+//@ func parseCompressionType(value) (r, err)
+//@   property C11
+//@   ensures none: value == "none" ==> r == CompressionTypeNone && err == nil
+//@   ensures gzip: value == "gzip" ==> r == CompressionTypeGzip && err == nil
+//@   ensures zstd: value == "zstd" ==> r == CompressionTypeZstd && err == nil
+//@   ensures unknown-is-an-error: value != "none" && value != "gzip" && value != "zstd" ==> err != nil && r == 0
+//@   canary ensures err == nil
+//@   canary ensures err != nil
+//
+// helpers of the option loop (effect-free; only what the loop needs)
+//@ func parseGitDepth(value) (r, err)
+//@   property C11
+//@   ensures true
+//@ func parseSubDirPath(value) (r, err)
+//@   property C11
+//@   ensures true
+//
+// ---- the parsed single-file ref carries what it was given ----
+//@ func newDirectSingleRef(format, path, fileScheme, compressionType, customOptions) (r)
+//@   property C11
+//@   ensures built: r != nil && !old(allocated(r))
+//@   ensures format-kept: r.format == format
+//@   ensures compression-kept: r.compressionType == compressionType
+//@   ensures path-kept: r.path == path && r.fileScheme == fileScheme
+//@   ensures options-kept: customOptions != nil ==> r.customOptions == customOptions
+//
+// newSingleRef: "-" is stdin/stdout (scheme stdio, no path) WITH the decided format and compression; every successful
+// outcome keeps format and compression; an empty path is an error.
+//@ func newSingleRef(format, path, compressionType, customOptions) (r, err)
+//@   property C11
+//@   ensures failure-has-no-ref: err != nil ==> r == nil
+//@   ensures built: err == nil ==> r != nil
+//@   ensures format-kept: err == nil ==> r.format == format
+//@   ensures compression-kept: err == nil ==> r.compressionType == compressionType
+//@   ensures dash-is-stdio: path == "-" ==> err == nil && r.fileScheme == FileSchemeStdio && r.path == ""
+// (the scheme-prefix table holds only http / https / local: obligation table[b2_schemePrefixes.no-stdio-prefix])
+//@   ensures stdio-only-for-dash: (forall k string :: k in fileSchemePrefixToFileScheme ==> fileSchemePrefixToFileScheme[k] != FileSchemeStdio) && err == nil && r.fileScheme == FileSchemeStdio ==> path == "-"
+//@   ensures empty-path-rejected: path == "" ==> err != nil
+//@   canary ensures err != nil
+//@   canary ensures err == nil
+//
+//@ table b2_schemePrefixes {C11} of fileSchemePrefixToFileScheme
+//@   ensures no-stdio-prefix: forall k string :: k in fileSchemePrefixToFileScheme ==> fileSchemePrefixToFileScheme[k] != FileSchemeStdio
+//@   ensures prefixes: forall k string :: k in fileSchemePrefixToFileScheme <==> (k == "http://" || k == "https://" || k == "file://")
+//
+//@ func (r *singleRef) Format() (res)
+//@   property C11
+//@   ensures res == r.format
+//@ func (r *singleRef) CompressionType() (res)
+//@   property C11
+//@   ensures res == r.compressionType
+//@ func (r *singleRef) FileScheme() (res)
+//@   property C11
+//@   ensures res == r.fileScheme
+//@ func (r *singleRef) Path() (res)
+//@   property C11
+//@   ensures res == r.path
+//@ func (r *archiveRef) Format() (res)
+//@   property C11
+//@   ensures res == r.format
+//@ func (r *archiveRef) CompressionType() (res)
+//@   property C11
+//@   ensures res == r.compressionType
+//@ func (r *archiveRef) ArchiveType() (res)
+//@   property C11
+//@   ensures res == r.archiveType
+//
+// getSingleRef / getArchiveRef: an explicit compression wins; the format's default applies ONLY when none was given
+// (by option or by the path suffix); the format is the decided one.
+//@ func getSingleRef(rawRef, defaultCompressionType, customOptionKeys) (r, err)
+//@   property C11
+//@   ensures built: err == nil ==> r != nil && typeOf(r) == typeId(*singleRef)
+//@   ensures format-kept: err == nil ==> cast(*singleRef, r).format == rawRef.Format
+//@   ensures explicit-compression-wins: err == nil && rawRef.CompressionType != 0 ==> cast(*singleRef, r).compressionType == rawRef.CompressionType
+//@   ensures default-compression-only-when-unset: err == nil && rawRef.CompressionType == 0 ==> cast(*singleRef, r).compressionType == defaultCompressionType
+//@   ensures unknown-option-key-rejected: (exists k string :: k in rawRef.UnrecognizedOptions && !(k in customOptionKeys)) ==> err != nil
+//@   loop 0 invariant bad-key-collected: (exists k string :: k in $visited && !(k in customOptionKeys)) ==> len(invalidKeys) > 0
+//@   canary ensures err != nil
+//@   canary ensures err == nil
+//
+//@ func newDirectArchiveRef(format, path, fileScheme, archiveType, compressionType, stripComponents, subDirPath) (r)
+//@   property C11
+//@   ensures built: r != nil && !old(allocated(r))
+//@   ensures kept: r.format == format && r.compressionType == compressionType && r.archiveType == archiveType && r.path == path && r.fileScheme == fileScheme
+//
+//@ func newArchiveRef(format, path, archiveType, compressionType, stripComponents, subDirPath) (r, err)
+//@   property C11
+//@   ensures failure-has-no-ref: err != nil ==> r == nil
+//@   ensures format-kept: err == nil ==> r != nil && r.format == format
+//@   ensures compression-kept: err == nil ==> r.compressionType == compressionType
+//@   ensures archive-type-kept: err == nil ==> r.archiveType == archiveType
+//@   ensures compressed-zip-rejected: archiveType == ArchiveTypeZip && compressionType != CompressionTypeNone ==> err != nil
+//
+//@ func getArchiveRef(rawRef, archiveType, defaultCompressionType) (r, err)
+//@   property C11
+//@   ensures built: err == nil ==> r != nil && typeOf(r) == typeId(*archiveRef)
+//@   ensures format-kept: err == nil ==> cast(*archiveRef, r).format == rawRef.Format && cast(*archiveRef, r).archiveType == archiveType
+//@   ensures explicit-compression-wins: err == nil && rawRef.CompressionType != 0 ==> cast(*archiveRef, r).compressionType == rawRef.CompressionType
+//@   ensures default-compression-only-when-unset: err == nil && rawRef.CompressionType == 0 ==> cast(*archiveRef, r).compressionType == defaultCompressionType
+//
+// ---- the option half of the decision table ----
+// validateRawRef: a ref without a format is an error (never a silent default); compression is accepted only for
+// single-file and (non-zip) archive formats; a plain single-file ref is accepted.
+//@ func (a *refParser) validateRawRef(displayName, rawRef) (err)
+//@   property C11
+//@   ensures format-required: rawRef.Format == "" ==> err != nil
+//@   ensures compressed-zip-rejected: rawRef.Format in a.archiveFormatToInfo && a.archiveFormatToInfo[rawRef.Format].archiveType == ArchiveTypeZip && rawRef.CompressionType != 0 ==> err != nil
+//@   ensures compression-only-for-files: !(rawRef.Format in a.singleFormatToInfo) && !(rawRef.Format in a.archiveFormatToInfo) && rawRef.CompressionType != 0 ==> err != nil
+//@   ensures plain-file-ref-accepted: rawRef.Format != "" && rawRef.Format in a.singleFormatToInfo && !(rawRef.Format in a.gitFormatToInfo) && !(rawRef.Format in a.archiveFormatToInfo) && rawRef.GitBranch == "" && rawRef.GitCommitOrTag == "" && rawRef.GitRef == "" && !rawRef.GitRecurseSubmodules && rawRef.GitDepth == 0 && rawRef.ArchiveStripComponents == 0 && rawRef.SubDirPath == "" ==> err == nil
+//@   canary ensures err != nil
+//@   canary ensures err == nil
+//
+// getRawRef: the processor (the path half of the table, buffetch.processRawRef*) runs first; an explicit #format= /
+// #compression= then OVERRIDES what the path said; an unknown compression value is an error; without the option the
+// path's answer stands. ghost.b2_procFormat / b2_procCompression: what the processor left in the ref.
+//@ func (a *refParser) getRawRef(path, displayName, options) (r, err)
+//@   property C11
+//@   modifies heap, ghost.fail, ghost.wfail, ghost.b2_procFormat, ghost.b2_procCompression
+//@   ghost before "for key, value := range options" b2_procFormat := rawRef.Format
+//@   ghost before "for key, value := range options" b2_procCompression := rawRef.CompressionType
+//@   ensures failure-has-no-ref: err != nil ==> r == nil
+//@   ensures explicit-format-wins: err == nil && "format" in options ==> r.Format == options["format"]
+//@   ensures path-format-otherwise: err == nil && !("format" in options) ==> r.Format == ghost.b2_procFormat
+//@   ensures format-decided: err == nil ==> r.Format != ""
+//@   ensures explicit-compression-none: err == nil && "compression" in options && options["compression"] == "none" ==> r.CompressionType == CompressionTypeNone
+//@   ensures explicit-compression-gzip: err == nil && "compression" in options && options["compression"] == "gzip" ==> r.CompressionType == CompressionTypeGzip
+//@   ensures explicit-compression-zstd: err == nil && "compression" in options && options["compression"] == "zstd" ==> r.CompressionType == CompressionTypeZstd
+//@   ensures unknown-compression-is-an-error: "compression" in options && options["compression"] != "none" && options["compression"] != "gzip" && options["compression"] != "zstd" ==> err != nil
+//@   ensures path-compression-otherwise: err == nil && !("compression" in options) ==> r.CompressionType == ghost.b2_procCompression
+//@   ensures dev-null-format-override-rejected: "format" in options && path == "/dev/null" ==> err != nil
+//@   loop 0 invariant ref-kept: rawRef != nil
+//@   loop 0 invariant visited-are-options: forall k string :: k in $visited ==> k in options
+//@   loop 0 invariant format-option-applied: ("format" in $visited) ==> rawRef.Format == options["format"] && path != "/dev/null"
+//@   loop 0 invariant format-otherwise-from-path: !("format" in $visited) ==> rawRef.Format == ghost.b2_procFormat
+//@   loop 0 invariant compression-none-applied: ("compression" in $visited) && options["compression"] == "none" ==> rawRef.CompressionType == CompressionTypeNone
+//@   loop 0 invariant compression-gzip-applied: ("compression" in $visited) && options["compression"] == "gzip" ==> rawRef.CompressionType == CompressionTypeGzip
+//@   loop 0 invariant compression-zstd-applied: ("compression" in $visited) && options["compression"] == "zstd" ==> rawRef.CompressionType == CompressionTypeZstd
+//@   loop 0 invariant compression-value-known: ("compression" in $visited) ==> options["compression"] == "none" || options["compression"] == "gzip" || options["compression"] == "zstd"
+//@   loop 0 invariant compression-otherwise-from-path: !("compression" in $visited) ==> rawRef.CompressionType == ghost.b2_procCompression
+//@   canary ensures err != nil
+//@   canary ensures err == nil
+//
+// parseRawRef: a format no parser knows is an error, and so is one the caller does not allow; a single-file /
+// archive format yields a ref with the decided format, and the decided compression or, if none was decided, the
+// format's default (bingz / jsongz / targz: gzip; everything else: none, see table obligations in buffetch).
+//@ func (a *refParser) parseRawRef(rawRef, allowedFormats) (r, err)
+//@   property C11
+//@   modifies heap
+//@   ensures unknown-format-is-an-error: !(old(rawRef.Format) in old(a.singleFormatToInfo)) && !(old(rawRef.Format) in old(a.archiveFormatToInfo)) && !(old(rawRef.Format) in old(a.dirFormatToInfo)) && !(old(rawRef.Format) in old(a.gitFormatToInfo)) && !(old(rawRef.Format) in old(a.moduleFormatToInfo)) && !(old(rawRef.Format) in old(a.protoFileFormatToInfo)) ==> err != nil && r == nil
+//@   ensures disallowed-format-is-an-error: len(allowedFormats) > 0 && !(old(rawRef.Format) in allowedFormats) ==> err != nil && r == nil
+//@   ensures single-format-gives-single-ref: err == nil && old(rawRef.Format) in old(a.singleFormatToInfo) ==> r != nil && typeOf(r) == typeId(*singleRef) && cast(*singleRef, r).format == old(rawRef.Format)
+//@   ensures single-explicit-compression: err == nil && old(rawRef.Format) in old(a.singleFormatToInfo) && old(rawRef.CompressionType) != 0 ==> cast(*singleRef, r).compressionType == old(rawRef.CompressionType)
+//@   ensures single-default-compression: err == nil && old(rawRef.Format) in old(a.singleFormatToInfo) && old(rawRef.CompressionType) == 0 ==> cast(*singleRef, r).compressionType == old(a.singleFormatToInfo[rawRef.Format].defaultCompressionType)
+//@   ensures archive-format-gives-archive-ref: err == nil && !(old(rawRef.Format) in old(a.singleFormatToInfo)) && old(rawRef.Format) in old(a.archiveFormatToInfo) ==> r != nil && typeOf(r) == typeId(*archiveRef) && cast(*archiveRef, r).format == old(rawRef.Format) && cast(*archiveRef, r).archiveType == old(a.archiveFormatToInfo[rawRef.Format].archiveType)
+//@   ensures archive-explicit-compression: err == nil && !(old(rawRef.Format) in old(a.singleFormatToInfo)) && old(rawRef.Format) in old(a.archiveFormatToInfo) && old(rawRef.CompressionType) != 0 ==> cast(*archiveRef, r).compressionType == old(rawRef.CompressionType)
+//@   ensures archive-default-compression: err == nil && !(old(rawRef.Format) in old(a.singleFormatToInfo)) && old(rawRef.Format) in old(a.archiveFormatToInfo) && old(rawRef.CompressionType) == 0 ==> cast(*archiveRef, r).compressionType == old(a.archiveFormatToInfo[rawRef.Format].defaultCompressionType)
+//@   canary ensures err != nil
+//@   canary ensures err == nil
+//
+// ---- writer and reader act on the SAME field of the ref, with the same three cases ----
+// A parsed ref is an immutable value seen through its accessors (trusted; the concrete accessors are verified above).
+//@ trusted pure interface FileRef
+//@ trusted pure interface HasFormat
+//
+// The compressors / decompressors are third-party sinks (/verif/specs/C11_formats.spec): each records its codec in
+// ghost.b2_wcodec / b2_rcodec (2 = gzip, 3 = zstd) and counts
+// itself in b2_wcodecN / b2_rcodecN.
+//
+// putFileWriteCloser: unless the caller asked for no file compression, the bytes go through exactly one compressor,
+// the one named by the ref (none for CompressionTypeNone), and any other compression type is an error.
+//@ func (w *writer) putFileWriteCloser(ctx, container, fileRef, noFileCompression) (r, retErr)
+//@   property C11
+//@   modifies heap, ghost.fail, ghost.wfail, ghost.b2_wcodec, ghost.b2_wcodecN
+//@   ensures gzip-ref-gzip-writer: retErr == nil && !noFileCompression && fileRef.CompressionType() == CompressionTypeGzip ==> ghost.b2_wcodecN == old(ghost.b2_wcodecN) + 1 && ghost.b2_wcodec == 2
+//@   ensures zstd-ref-zstd-writer: retErr == nil && !noFileCompression && fileRef.CompressionType() == CompressionTypeZstd ==> ghost.b2_wcodecN == old(ghost.b2_wcodecN) + 1 && ghost.b2_wcodec == 3
+//@   ensures uncompressed-ref-plain-writer: noFileCompression || fileRef.CompressionType() == CompressionTypeNone ==> ghost.b2_wcodecN == old(ghost.b2_wcodecN)
+//@   ensures unknown-compression-is-an-error: !noFileCompression && fileRef.CompressionType() != CompressionTypeNone && fileRef.CompressionType() != CompressionTypeGzip && fileRef.CompressionType() != CompressionTypeZstd ==> retErr != nil
+//@   ensures at-most-one-compressor: ghost.b2_wcodecN <= old(ghost.b2_wcodecN) + 1
+//@   ensures failure-has-no-writer: retErr != nil ==> r == nil
+//@   canary ensures retErr != nil
+//@   canary ensures retErr == nil
+//
+// getFileReadCloserAndSize: the mirror image on the read side.
+//@ func (r *reader) getFileReadCloserAndSize(ctx, container, fileRef, keepFileCompression) (rc, size, retErr)
+//@   property C11
+//@   modifies heap, ghost.fail, ghost.wfail, ghost.b2_rcodec, ghost.b2_rcodecN
+//@   ensures gzip-ref-gzip-reader: retErr == nil && !keepFileCompression && fileRef.CompressionType() == CompressionTypeGzip ==> ghost.b2_rcodecN == old(ghost.b2_rcodecN) + 1 && ghost.b2_rcodec == 2
+//@   ensures zstd-ref-zstd-reader: retErr == nil && !keepFileCompression && fileRef.CompressionType() == CompressionTypeZstd ==> ghost.b2_rcodecN == old(ghost.b2_rcodecN) + 1 && ghost.b2_rcodec == 3
+//@   ensures uncompressed-ref-plain-reader: keepFileCompression || fileRef.CompressionType() == CompressionTypeNone ==> ghost.b2_rcodecN == old(ghost.b2_rcodecN)
+//@   ensures unknown-compression-is-an-error: !keepFileCompression && fileRef.CompressionType() != CompressionTypeNone && fileRef.CompressionType() != CompressionTypeGzip && fileRef.CompressionType() != CompressionTypeZstd ==> retErr != nil
+//@   ensures at-most-one-decompressor: ghost.b2_rcodecN <= old(ghost.b2_rcodecN) + 1
+//@   ensures failure-has-no-reader: retErr != nil ==> rc == nil
+//@   canary ensures retErr != nil
+//@   canary ensures retErr == nil
+//
+// the printed name of a compression type is the value #compression= accepts for it (parseCompressionType above)
+//@ func (c CompressionType) String() (r)
+//@   property C11
+//@   modifies heap
+//@   ensures none: c == CompressionTypeNone ==> r == "none"
+//@   ensures gzip: c == CompressionTypeGzip ==> r == "gzip"
+//@   ensures zstd: c == CompressionTypeZstd ==> r == "zstd"
+//
+// PutFile / GetFile for a single-file (or archive-file) ref: without options (the way buffetch.writer.PutMessageFile and
+// buffetch.reader.GetMessageFile call them) the codec is the one named by the ref, as above.
+//@ func (w *writer) putSingle(ctx, container, singleRef, noFileCompression) (r, err)
+//@   property C11
+//@   modifies heap, ghost.fail, ghost.wfail, ghost.b2_wcodec, ghost.b2_wcodecN
+//@   ensures gzip-ref-gzip-writer: err == nil && !noFileCompression && singleRef.CompressionType() == CompressionTypeGzip ==> ghost.b2_wcodecN == old(ghost.b2_wcodecN) + 1 && ghost.b2_wcodec == 2
+//@   ensures zstd-ref-zstd-writer: err == nil && !noFileCompression && singleRef.CompressionType() == CompressionTypeZstd ==> ghost.b2_wcodecN == old(ghost.b2_wcodecN) + 1 && ghost.b2_wcodec == 3
+//@   ensures uncompressed-ref-plain-writer: noFileCompression || singleRef.CompressionType() == CompressionTypeNone ==> ghost.b2_wcodecN == old(ghost.b2_wcodecN)
+//@   ensures unknown-compression-is-an-error: !noFileCompression && singleRef.CompressionType() != CompressionTypeNone && singleRef.CompressionType() != CompressionTypeGzip && singleRef.CompressionType() != CompressionTypeZstd ==> err != nil
+//@ func (r *reader) getSingle(ctx, container, singleRef, keepFileCompression) (rc, err)
+//@   property C11
+//@   modifies heap, ghost.fail, ghost.wfail, ghost.b2_rcodec, ghost.b2_rcodecN
+//@   ensures gzip-ref-gzip-reader: err == nil && !keepFileCompression && singleRef.CompressionType() == CompressionTypeGzip ==> ghost.b2_rcodecN == old(ghost.b2_rcodecN) + 1 && ghost.b2_rcodec == 2
+//@   ensures zstd-ref-zstd-reader: err == nil && !keepFileCompression && singleRef.CompressionType() == CompressionTypeZstd ==> ghost.b2_rcodecN == old(ghost.b2_rcodecN) + 1 && ghost.b2_rcodec == 3
+//@   ensures uncompressed-ref-plain-reader: keepFileCompression || singleRef.CompressionType() == CompressionTypeNone ==> ghost.b2_rcodecN == old(ghost.b2_rcodecN)
+//@   ensures unknown-compression-is-an-error: !keepFileCompression && singleRef.CompressionType() != CompressionTypeNone && singleRef.CompressionType() != CompressionTypeGzip && singleRef.CompressionType() != CompressionTypeZstd ==> err != nil
+//@ func (w *writer) putArchiveFile(ctx, container, archiveRef, noFileCompression) (r, err)
+//@   property C11
+//@   modifies heap, ghost.fail, ghost.wfail, ghost.b2_wcodec, ghost.b2_wcodecN
+//@   ensures gzip-ref-gzip-writer: err == nil && !noFileCompression && archiveRef.CompressionType() == CompressionTypeGzip ==> ghost.b2_wcodecN == old(ghost.b2_wcodecN) + 1 && ghost.b2_wcodec == 2
+//@   ensures zstd-ref-zstd-writer: err == nil && !noFileCompression && archiveRef.CompressionType() == CompressionTypeZstd ==> ghost.b2_wcodecN == old(ghost.b2_wcodecN) + 1 && ghost.b2_wcodec == 3
+//@   ensures uncompressed-ref-plain-writer: noFileCompression || archiveRef.CompressionType() == CompressionTypeNone ==> ghost.b2_wcodecN == old(ghost.b2_wcodecN)
+//@   ensures unknown-compression-is-an-error: !noFileCompression && archiveRef.CompressionType() != CompressionTypeNone && archiveRef.CompressionType() != CompressionTypeGzip && archiveRef.CompressionType() != CompressionTypeZstd ==> err != nil
+//@ func (r *reader) getArchiveFile(ctx, container, archiveRef, keepFileCompression) (rc, err)
+//@   property C11
+//@   modifies heap, ghost.fail, ghost.wfail, ghost.b2_rcodec, ghost.b2_rcodecN
+//@   ensures gzip-ref-gzip-reader: err == nil && !keepFileCompression && archiveRef.CompressionType() == CompressionTypeGzip ==> ghost.b2_rcodecN == old(ghost.b2_rcodecN) + 1 && ghost.b2_rcodec == 2
+//@   ensures zstd-ref-zstd-reader: err == nil && !keepFileCompression && archiveRef.CompressionType() == CompressionTypeZstd ==> ghost.b2_rcodecN == old(ghost.b2_rcodecN) + 1 && ghost.b2_rcodec == 3
+//@   ensures uncompressed-ref-plain-reader: keepFileCompression || archiveRef.CompressionType() == CompressionTypeNone ==> ghost.b2_rcodecN == old(ghost.b2_rcodecN)
+//@   ensures unknown-compression-is-an-error: !keepFileCompression && archiveRef.CompressionType() != CompressionTypeNone && archiveRef.CompressionType() != CompressionTypeGzip && archiveRef.CompressionType() != CompressionTypeZstd ==> err != nil
+//@ func newPutFileOptions() (r)
+//@   property C11
+//@   ensures compresses-by-default: r != nil && !old(allocated(r)) && !r.noFileCompression
+//@ func newGetFileOptions() (r)
+//@   property C11
+//@   ensures decompresses-by-default: r != nil && !old(allocated(r)) && !r.keepFileCompression
+//@ func (w *writer) PutFile(ctx, container, fileRef, options) (r, err)
+//@   property C11
+//@   modifies heap, ghost.fail, ghost.wfail, ghost.b2_wcodec, ghost.b2_wcodecN
+//@   ensures gzip-ref-gzip-writer: err == nil && len(options) == 0 && fileRef.CompressionType() == CompressionTypeGzip ==> ghost.b2_wcodecN == old(ghost.b2_wcodecN) + 1 && ghost.b2_wcodec == 2
+//@   ensures zstd-ref-zstd-writer: err == nil && len(options) == 0 && fileRef.CompressionType() == CompressionTypeZstd ==> ghost.b2_wcodecN == old(ghost.b2_wcodecN) + 1 && ghost.b2_wcodec == 3
+//@   ensures uncompressed-ref-plain-writer: len(options) == 0 && fileRef.CompressionType() == CompressionTypeNone ==> ghost.b2_wcodecN == old(ghost.b2_wcodecN)
+//@   loop 0 invariant no-option-no-change: len(options) == 0 ==> putFileOptions != nil && !putFileOptions.noFileCompression
+//@ func (r *reader) GetFile(ctx, container, fileRef, options) (rc, err)
+//@   property C11
+//@   loop 0 invariant no-option-no-change: len(options) == 0 ==> getFileOptions != nil && !getFileOptions.keepFileCompression
+//@   modifies heap, ghost.fail, ghost.wfail, ghost.b2_rcodec, ghost.b2_rcodecN
+//@   ensures gzip-ref-gzip-reader: err == nil && len(options) == 0 && fileRef.CompressionType() == CompressionTypeGzip ==> ghost.b2_rcodecN == old(ghost.b2_rcodecN) + 1 && ghost.b2_rcodec == 2
+//@   ensures zstd-ref-zstd-reader: err == nil && len(options) == 0 && fileRef.CompressionType() == CompressionTypeZstd ==> ghost.b2_rcodecN == old(ghost.b2_rcodecN) + 1 && ghost.b2_rcodec == 3
+//@   ensures uncompressed-ref-plain-reader: len(options) == 0 && fileRef.CompressionType() == CompressionTypeNone ==> ghost.b2_rcodecN == old(ghost.b2_rcodecN)
+//
+// ---- "path#key=value,key=value": the explicit options are taken literally ----
+// getRawPathAndOptions: the part before the single '#' is the path (never empty on success), every "key=value" pair after
+// it is recorded under its trimmed key with its trimmed value and NOTHING else is; an empty value, a second '#', a pair
+// that is not key=value, an empty key or value and a repeated key are errors.
+//@ func getRawPathAndOptions(value) (path, options, err)
+//@   property C11
+//@   ensures empty-value-rejected: strings.TrimSpace(value) == "" ==> err != nil
+//@   ensures no-hash-no-options: strings.TrimSpace(value) != "" && !contains(strings.TrimSpace(value), "#") ==> err == nil && path == strings.TrimSpace(value) && len(options) == 0
+//@   ensures path-never-empty: err == nil ==> path != ""
+//@   ensures second-hash-rejected: contains(strings.TrimSpace(value), "#") && len(strings.Split(strings.TrimSpace(value), "#")) != 2 ==> err != nil
+//@   ensures path-is-the-part-before-the-hash: err == nil && contains(strings.TrimSpace(value), "#") ==> path == strings.TrimSpace(strings.Split(strings.TrimSpace(value), "#")[0])
+//@   ensures every-pair-recorded: err == nil && contains(strings.TrimSpace(value), "#") ==> (forall j int :: 0 <= j && j < len(b2_optList(strings.TrimSpace(value))) ==> b2_optKey(b2_optList(strings.TrimSpace(value))[j]) in options && options[b2_optKey(b2_optList(strings.TrimSpace(value))[j])] == b2_optVal(b2_optList(strings.TrimSpace(value))[j]))
+//@   ensures nothing-else-recorded: err == nil && contains(strings.TrimSpace(value), "#") ==> (forall k string :: k in options ==> (exists j int :: 0 <= j && j < len(b2_optList(strings.TrimSpace(value))) && b2_optKey(b2_optList(strings.TrimSpace(value))[j]) == k))
+//@   ensures malformed-pair-rejected: contains(strings.TrimSpace(value), "#") && len(strings.Split(strings.TrimSpace(value), "#")) == 2 && (exists j int :: 0 <= j && j < len(b2_optList(strings.TrimSpace(value))) && len(strings.Split(b2_optList(strings.TrimSpace(value))[j], "=")) != 2) ==> err != nil
+//@   loop 0 invariant pairs-so-far: forall j int :: 0 <= j && j < $i ==> len(strings.Split(strings.Split(optionsString, ",")[j], "=")) == 2 && b2_optKey(strings.Split(optionsString, ",")[j]) in options && options[b2_optKey(strings.Split(optionsString, ",")[j])] == b2_optVal(strings.Split(optionsString, ",")[j])
+//@   loop 0 invariant only-pairs-so-far: options != nil && (forall k string :: k in options ==> (exists j int :: 0 <= j && j < $i && b2_optKey(strings.Split(optionsString, ",")[j]) == k))
+//@   canary ensures err != nil
+//
+// ---- registering formats: a format's default compression is none unless the registration says otherwise
+// (buffetch registers gzip for the deprecated bingz / jsongz / targz only: table[b2_deprecatedFormats]) ----
+//@ func newSingleFormatInfo() (r)
+//@   property C11
+//@   ensures uncompressed-by-default: r != nil && !old(allocated(r)) && r.defaultCompressionType == CompressionTypeNone && len(r.customOptionKeys) == 0
+//@ func newArchiveFormatInfo(archiveType) (r)
+//@   property C11
+//@   ensures uncompressed-by-default: r != nil && !old(allocated(r)) && r.defaultCompressionType == CompressionTypeNone && r.archiveType == archiveType
+//@ func WithSingleDefaultCompressionType(defaultCompressionType) (r)
+//@   property C11
+//@   closure 0 ensures sets-the-default: singleFormatInfo.defaultCompressionType == defaultCompressionType
+//@ func WithArchiveDefaultCompressionType(defaultCompressionType) (r)
+//@   property C11
+//@   closure 0 ensures sets-the-default: archiveFormatInfo.defaultCompressionType == defaultCompressionType && archiveFormatInfo.archiveType == old(archiveFormatInfo.archiveType)
+//@ func WithSingleCustomOptionKey(key) (r)
+//@   property C11
+//@   closure 0 ensures key-allowed: key in singleFormatInfo.customOptionKeys && singleFormatInfo.defaultCompressionType == old(singleFormatInfo.defaultCompressionType)
+// (WithSingleFormat / WithArchiveFormat themselves are NOT under contract: their literal re-assigns the captured parameter
+// (`format = normalizeFormat(format)`); the engine havocs a re-assigned captured variable at the literal's entry, so the
+// registered key cannot be related to the parameter.)
+//@ pure func normalizeFormat(format) (r)
+//@   property C11
+//@   ensures r == strings.ToLower(strings.TrimSpace(format))
